@@ -65,10 +65,19 @@ def _histories(ops_lines):
         yield start, cur
 
 
+def _crash(err):
+    """first line of a Go runtime crash report (a goroutine of the implementation panicked: the process died)"""
+    m = re.search(r"^(panic: .*|fatal error: .*)$", err, re.M)
+    return m.group(1)[:300] if m and "goroutine " in err else None
+
+
 def _run_both(ctx, go, model, ops_path, tag, env=None):
     a, b = ctx.path(tag + ".impl"), ctx.path(tag + ".model")
     rc, err = ctx.run_lines(go, ["drive"], ops_path, a, timeout=1800, env=env)
-    if rc != 0:
+    if rc != 0 and _crash(err):
+        with open(a, "a") as h:     # the result stream ends where the process died
+            h.write("crashed: %s\n" % _crash(err))
+    elif rc != 0:
         ctx.fatal("implementation driver failed rc=%d %s" % (rc, err[-800:]))
     rc, err = ctx.run_lines(model, [], ops_path, b, timeout=1800)
     if rc != 0:
@@ -112,6 +121,8 @@ def _judge(ctx, go, lines):
     p, out = ctx.path("judge.ops"), ctx.path("judge.out")
     open(p, "w").write("\n".join(lines) + "\n")
     rc, err = ctx.run_lines(go, ["judge"], p, out, timeout=600)
+    if rc != 0 and _crash(err):
+        return ["FAIL crash the process died while executing the history: " + _crash(err)]
     if rc != 0:
         ctx.fatal("judge failed: " + err[-500:])
     return [l.rstrip("\n") for l in open(out) if l.startswith("FAIL ")]
@@ -121,15 +132,23 @@ def _oracle(ctx, go, n, shards):
     per = max(1, n // shards)
     outs = []
 
+    crashes = []
+
     def one(i):
-        out = ctx.path("oracle%d.out" % i)
-        rc, err = ctx.run_lines(go, ["oracle", str(per), str(i)], None, out, timeout=1800)
-        if rc != 0:
-            ctx.fatal("oracle run failed: " + err[-500:])
+        out, last = ctx.path("oracle%d.out" % i), ctx.path("oracle%d.last" % i)
+        rc, err = ctx.run_lines(go, ["oracle", str(per), str(i)], None, out, timeout=1800, env=dict(SCOPE_LAST=last))
+        if rc != 0 and _crash(err) and os.path.exists(last):
+            crashes.append("FAIL crash the process died while executing the history: %s | %s" % (
+                _crash(err), ";".join(l for l in open(last).read().split("\n") if l)))
+        elif rc != 0:
+            return "ERR " + err[-500:]
         return out
     with concurrent.futures.ThreadPoolExecutor(max_workers=shards) as ex:
         outs = list(ex.map(one, range(shards)))
-    fails, cases = [], 0
+    for o in outs:
+        if o.startswith("ERR "):
+            ctx.fatal("oracle run failed: " + o[4:])
+    fails, cases = list(crashes), 0
     for out in outs:
         for l in open(out):
             if l.startswith("FAIL "):
@@ -325,5 +344,8 @@ def replay(ctx, path):
     for v in verdict:
         print("spec  ", v)
         rc = 1
+    m = re.search(r"kf1=(\d+)", open(ctx.path("judge.out")).read()) if os.path.exists(ctx.path("judge.out")) else None
+    if m and int(m.group(1)):
+        print("known ", KF_ID, "exhibited: a Close returned while a child that never signed on was open")
     print("replay:", "still failing" if rc else "implementation and model agree, the property's clauses hold")
     return rc
